@@ -484,7 +484,7 @@ func runC10(ctx Ctx) int {
 	if run.Tier == "thorough" {
 		maxDepth = 3
 	}
-	deadline := devx.Deadline(map[string]time.Duration{"quick": 5 * time.Minute, "thorough": 30 * time.Minute}[run.Tier])
+	deadline := devx.Deadline(map[string]time.Duration{"quick": 5 * time.Minute, "thorough": 15 * time.Minute}[run.Tier])
 	type job struct {
 		sc   c10Scenario
 		plan []c10Fault
@@ -687,7 +687,7 @@ func runC10(ctx Ctx) int {
 	{
 		cb, cs := 1, 90
 		if run.Tier == "thorough" {
-			cb, cs = 2, 1200
+			cb, cs = 2, 180
 		}
 		runConc(run, "C10", cb, cs)
 	}
